@@ -8,7 +8,6 @@ use crate::rng::{fold, run_seed, Rng, FNV_OFFSET};
 use std::cell::{Cell, RefCell};
 use std::collections::BTreeMap;
 use std::panic::{catch_unwind, AssertUnwindSafe};
-use std::sync::atomic::{AtomicU64, Ordering};
 
 #[derive(Clone, Debug)]
 pub struct Violation {
@@ -231,18 +230,39 @@ pub struct BatchResult {
     pub fail_classes: BTreeMap<String, (u64, u64)>,
     pub fail_count: u64,
     pub run_digests: Vec<u64>,
+    pub lanes: u64,
 }
 
 pub struct BatchCfg {
+    pub prop: String,
     pub base_seed: u64,
     pub runs: u64,
+    /// how many lane processes may run at the same time (does not influence any result)
     pub workers: usize,
     /// collect the distinct-values sample (C15) over the first this-many runs
     pub values_runs: u64,
     pub keep_run_digests: bool,
+    /// directory for the lane result files
+    pub scratch: std::path::PathBuf,
 }
 
-fn run_chunk<W: World>(cfg: &BatchCfg, c: u64) -> ChunkResult {
+/// The seeded runs are executed in a fixed number of *lanes*. A lane is a fresh process that
+/// executes its chunks (chunk c belongs to lane c mod LANES) one after the other on one thread.
+/// Nothing is shared between lanes, so even a tree that keeps process-wide state (a static cache,
+/// a counter) cannot make a result depend on real thread scheduling: every history runs in a
+/// context that is a pure function of (seed, lane), and can be re-created exactly.
+pub const LANES: u64 = 16;
+
+pub struct LaneCfg {
+    pub base_seed: u64,
+    pub runs: u64,
+    pub values_runs: u64,
+    pub keep_run_digests: bool,
+    pub lane: u64,
+    pub lanes: u64,
+}
+
+fn run_chunk<W: World>(cfg: &LaneCfg, c: u64) -> ChunkResult {
     let lo = c * CHUNK;
     let hi = ((c + 1) * CHUNK).min(cfg.runs);
     let mut obs = Obs::for_world::<W>();
@@ -281,27 +301,219 @@ fn run_chunk<W: World>(cfg: &BatchCfg, c: u64) -> ChunkResult {
     res
 }
 
-pub fn run_batch<W: World>(cfg: &BatchCfg) -> BatchResult {
+/// The chunks of one lane, in order, on the calling thread.
+pub fn run_lane<W: World>(cfg: &LaneCfg) -> Vec<(u64, ChunkResult)> {
     let nchunks = (cfg.runs + CHUNK - 1) / CHUNK;
-    let next = AtomicU64::new(0);
-    let workers = cfg.workers.max(1);
+    let mut out = Vec::new();
+    let mut c = cfg.lane;
+    while c < nchunks {
+        out.push((c, run_chunk::<W>(cfg, c)));
+        c += cfg.lanes;
+    }
+    out
+}
+
+/// Re-create the context of seeded run `to` and execute it: the runs of its lane with index in
+/// `from..=to`, in lane order, on this thread, in this (fresh) process. Returns the outcome of `to`.
+pub fn run_lane_context<W: World>(base_seed: u64, lanes: u64, from: u64, to: u64, obs_last: &mut Obs) -> Outcome {
+    let lane = (to / CHUNK) % lanes;
+    let mut c = lane;
+    let mut scratch = Obs::for_world::<W>();
+    loop {
+        let lo = c * CHUNK;
+        let hi = (c + 1) * CHUNK;
+        if hi > from {
+            for i in lo.max(from)..hi {
+                let mut rng = Rng::from_seed(run_seed(base_seed, i));
+                if i == to {
+                    let ops = W::generate(&mut rng, obs_last);
+                    return run_one::<W>(&ops, obs_last);
+                }
+                let ops = W::generate(&mut rng, &mut scratch);
+                let _ = run_one::<W>(&ops, &mut scratch);
+            }
+        }
+        c += lanes;
+    }
+}
+
+/// First run index of the lane that run `i` belongs to.
+pub fn lane_start(i: u64, lanes: u64) -> u64 {
+    ((i / CHUNK) % lanes) * CHUNK
+}
+
+// ---- lane result files: little-endian u64 words, strings as length + bytes ------------------
+
+struct W64(Vec<u8>);
+impl W64 {
+    fn u(&mut self, x: u64) {
+        self.0.extend_from_slice(&x.to_le_bytes());
+    }
+    fn v(&mut self, xs: &[u64]) {
+        self.u(xs.len() as u64);
+        for x in xs {
+            self.u(*x);
+        }
+    }
+    fn s(&mut self, s: &str) {
+        self.u(s.len() as u64);
+        self.0.extend_from_slice(s.as_bytes());
+    }
+}
+struct R64<'a> {
+    b: &'a [u8],
+    i: usize,
+}
+impl<'a> R64<'a> {
+    fn u(&mut self) -> Result<u64, String> {
+        if self.i + 8 > self.b.len() {
+            return Err("lane file truncated".into());
+        }
+        let mut a = [0u8; 8];
+        a.copy_from_slice(&self.b[self.i..self.i + 8]);
+        self.i += 8;
+        Ok(u64::from_le_bytes(a))
+    }
+    fn v(&mut self) -> Result<Vec<u64>, String> {
+        let n = self.u()? as usize;
+        if self.i + n * 8 > self.b.len() {
+            return Err("lane file truncated".into());
+        }
+        let mut out = Vec::with_capacity(n);
+        for _ in 0..n {
+            out.push(self.u()?);
+        }
+        Ok(out)
+    }
+    fn s(&mut self) -> Result<String, String> {
+        let n = self.u()? as usize;
+        if self.i + n > self.b.len() {
+            return Err("lane file truncated".into());
+        }
+        let s = String::from_utf8_lossy(&self.b[self.i..self.i + n]).to_string();
+        self.i += n;
+        Ok(s)
+    }
+}
+
+const LANE_MAGIC: u64 = 0x434b_434c_414e_4531; // "CKCLANE1"
+
+pub fn write_lane(path: &std::path::Path, chunks: &[(u64, ChunkResult)]) -> Result<(), String> {
+    let mut w = W64(Vec::new());
+    w.u(LANE_MAGIC);
+    w.u(chunks.len() as u64);
+    for (c, r) in chunks {
+        w.u(*c);
+        w.u(r.digest);
+        w.u(r.runs);
+        w.u(r.steps);
+        w.u(r.fail_count);
+        w.v(&r.nontrivial_digests);
+        w.v(&r.run_digests);
+        w.u(r.fails.len() as u64);
+        for (i, class) in &r.fails {
+            w.u(*i);
+            w.s(class);
+        }
+        w.v(&r.obs.probes);
+        w.v(&r.obs.bigrams);
+        w.v(&r.obs.cells);
+        w.v(&r.obs.shapes);
+        w.v(&r.obs.values);
+        w.u(r.obs.inv_checks);
+    }
+    std::fs::write(path, w.0).map_err(|e| format!("{}: {}", path.display(), e))
+}
+
+pub fn read_lane<Wd: World>(path: &std::path::Path) -> Result<Vec<(u64, ChunkResult)>, String> {
+    let bytes = std::fs::read(path).map_err(|e| format!("{}: {}", path.display(), e))?;
+    let mut r = R64 { b: &bytes, i: 0 };
+    if r.u()? != LANE_MAGIC {
+        return Err(format!("{}: not a lane file", path.display()));
+    }
+    let n = r.u()?;
+    let mut out = Vec::new();
+    for _ in 0..n {
+        let c = r.u()?;
+        let digest = r.u()?;
+        let runs = r.u()?;
+        let steps = r.u()?;
+        let fail_count = r.u()?;
+        let nontrivial_digests = r.v()?;
+        let run_digests = r.v()?;
+        let nf = r.u()?;
+        let mut fails = Vec::new();
+        for _ in 0..nf {
+            let i = r.u()?;
+            let class = r.s()?;
+            fails.push((i, class));
+        }
+        let mut obs = Obs::for_world::<Wd>();
+        obs.probes = r.v()?;
+        obs.bigrams = r.v()?;
+        obs.cells = r.v()?;
+        obs.shapes = r.v()?;
+        obs.values = r.v()?;
+        obs.inv_checks = r.u()?;
+        let proto = Obs::for_world::<Wd>();
+        if obs.probes.len() != proto.probes.len() || obs.bigrams.len() != proto.bigrams.len() || obs.cells.len() != proto.cells.len() {
+            return Err(format!("{}: lane file written by a different build", path.display()));
+        }
+        out.push((c, ChunkResult { digest, runs, steps, obs, nontrivial_digests, fails, fail_count, run_digests }));
+    }
+    Ok(out)
+}
+
+pub fn run_batch<W: World>(cfg: &BatchCfg) -> Result<BatchResult, String> {
+    let nchunks = (cfg.runs + CHUNK - 1) / CHUNK;
+    let exe = std::env::current_exe().map_err(|e| format!("current_exe: {}", e))?;
+    let dir = cfg.scratch.join(format!("lanes-{}-{}", cfg.prop, std::process::id()));
+    std::fs::create_dir_all(&dir).map_err(|e| format!("{}: {}", dir.display(), e))?;
+    let lanes = LANES.min(nchunks.max(1));
+    let mut running: Vec<(u64, std::process::Child)> = Vec::new();
+    let mut failed: Vec<String> = Vec::new();
+    let wait_one = |running: &mut Vec<(u64, std::process::Child)>, failed: &mut Vec<String>| {
+        let (lane, mut child) = running.remove(0);
+        match child.wait() {
+            Ok(st) if st.success() => {}
+            Ok(st) => failed.push(format!("lane {} exited with {:?}", lane, st.code())),
+            Err(e) => failed.push(format!("lane {}: {}", lane, e)),
+        }
+    };
+    for lane in 0..lanes {
+        if running.len() >= cfg.workers.max(1) {
+            wait_one(&mut running, &mut failed);
+        }
+        let mut cmd = std::process::Command::new(&exe);
+        cmd.arg("lane").arg("--prop").arg(&cfg.prop).arg("--seed").arg(cfg.base_seed.to_string()).arg("--runs").arg(cfg.runs.to_string()).arg("--lane").arg(lane.to_string()).arg("--lanes").arg(lanes.to_string()).arg("--values-runs").arg(cfg.values_runs.to_string()).arg("--out").arg(dir.join(format!("lane-{}.bin", lane)));
+        if cfg.keep_run_digests {
+            cmd.arg("--keep-run-digests");
+        }
+        cmd.stdout(std::process::Stdio::null());
+        match cmd.spawn() {
+            Ok(child) => running.push((lane, child)),
+            Err(e) => failed.push(format!("cannot spawn lane {}: {}", lane, e)),
+        }
+    }
+    while !running.is_empty() {
+        wait_one(&mut running, &mut failed);
+    }
+    if !failed.is_empty() {
+        let _ = std::fs::remove_dir_all(&dir);
+        return Err(failed.join("; "));
+    }
     let mut slots: Vec<Option<ChunkResult>> = Vec::new();
     slots.resize_with(nchunks as usize, || None);
-    let slots_mx = std::sync::Mutex::new(slots);
-    std::thread::scope(|s| {
-        for _ in 0..workers {
-            s.spawn(|| loop {
-                let c = next.fetch_add(1, Ordering::Relaxed);
-                if c >= nchunks {
-                    break;
-                }
-                let r = run_chunk::<W>(cfg, c);
-                slots_mx.lock().unwrap()[c as usize] = Some(r);
-            });
+    for lane in 0..lanes {
+        let path = dir.join(format!("lane-{}.bin", lane));
+        for (c, r) in read_lane::<W>(&path)? {
+            if (c as usize) < slots.len() {
+                slots[c as usize] = Some(r);
+            }
         }
-    });
-    let slots = slots_mx.into_inner().unwrap();
-    // fold in chunk order: independent of worker count and of real scheduling
+    }
+    let _ = std::fs::remove_dir_all(&dir);
+    // fold in chunk order: independent of how many lanes ran at once
     let mut out = BatchResult {
         digest: FNV_OFFSET,
         runs: 0,
@@ -315,10 +527,11 @@ pub fn run_batch<W: World>(cfg: &BatchCfg) -> BatchResult {
         fail_classes: BTreeMap::new(),
         fail_count: 0,
         run_digests: Vec::new(),
+        lanes,
     };
     let mut nontrivial: Vec<u64> = Vec::new();
     for r in slots.into_iter() {
-        let r = r.expect("chunk missing");
+        let r = r.ok_or("a chunk is missing from the lane files")?;
         out.digest = fold(out.digest, r.digest);
         out.runs += r.runs;
         out.steps += r.steps;
@@ -344,7 +557,7 @@ pub fn run_batch<W: World>(cfg: &BatchCfg) -> BatchResult {
     out.obs.values.sort_unstable();
     out.obs.values.dedup();
     out.distinct_values = out.obs.values.len() as u64;
-    out
+    Ok(out)
 }
 
 /// Regenerate the history of run `i` exactly as the batch did.
@@ -365,32 +578,28 @@ pub struct Minimised<O> {
     pub executions: usize,
 }
 
-pub fn minimise<W: World>(ops: Vec<W::Op>, class: &str) -> Minimised<W::Op> {
-    let mut budget = MINIMISE_BUDGET;
+/// `fails(candidate)` decides whether a candidate history still shows the violation class; the
+/// caller chooses between executing in this process (fast) and in a fresh process per candidate
+/// (needed when the tree keeps process-wide state, so that one candidate cannot influence the next).
+pub fn minimise<W: World>(ops: Vec<W::Op>, fails: &mut dyn FnMut(&[W::Op]) -> Option<usize>, max_execs: usize) -> Minimised<W::Op> {
+    let mut budget = max_execs;
     let mut execs = 0usize;
-    let mut still_fails = |cand: &[W::Op], budget: &mut usize| -> bool {
+    let mut probe = |cand: &[W::Op], budget: &mut usize| -> Option<usize> {
         if *budget == 0 {
-            return false;
+            return None;
         }
         *budget -= 1;
         execs += 1;
-        let mut obs = Obs::for_world::<W>();
-        match run_one::<W>(cand, &mut obs).violation {
-            Some(v) => v.class == class,
-            None => false,
-        }
+        fails(cand)
     };
 
     let mut cur = ops;
     // cut the tail after the failing step first
-    {
-        let mut obs = Obs::for_world::<W>();
-        if let Some(v) = run_one::<W>(&cur, &mut obs).violation {
-            if v.step + 1 < cur.len() {
-                let cand: Vec<W::Op> = cur[..=v.step].to_vec();
-                if still_fails(&cand, &mut budget) {
-                    cur = cand;
-                }
+    if let Some(step) = probe(&cur, &mut budget) {
+        if step + 1 < cur.len() {
+            let cand: Vec<W::Op> = cur[..=step].to_vec();
+            if probe(&cand, &mut budget).is_some() {
+                cur = cand;
             }
         }
     }
@@ -406,7 +615,7 @@ pub fn minimise<W: World>(ops: Vec<W::Op>, class: &str) -> Minimised<W::Op> {
             let mut cand: Vec<W::Op> = Vec::with_capacity(len - (end - start));
             cand.extend_from_slice(&cur[..start]);
             cand.extend_from_slice(&cur[end..]);
-            if !cand.is_empty() && still_fails(&cand, &mut budget) {
+            if !cand.is_empty() && probe(&cand, &mut budget).is_some() {
                 cur = cand;
                 n = (n - 1).max(2);
                 reduced = true;
@@ -429,7 +638,7 @@ pub fn minimise<W: World>(ops: Vec<W::Op>, class: &str) -> Minimised<W::Op> {
         while i < cur.len() && cur.len() > 1 {
             let mut cand = cur.clone();
             cand.remove(i);
-            if still_fails(&cand, &mut budget) {
+            if probe(&cand, &mut budget).is_some() {
                 cur = cand;
                 changed = true;
             } else {
@@ -453,7 +662,7 @@ pub fn minimise<W: World>(ops: Vec<W::Op>, class: &str) -> Minimised<W::Op> {
                     }
                     let mut cand = cur.clone();
                     cand[i] = cand_op;
-                    if still_fails(&cand, &mut budget) {
+                    if probe(&cand, &mut budget).is_some() {
                         cur = cand;
                         changed = true;
                         progress = true;
@@ -467,7 +676,7 @@ pub fn minimise<W: World>(ops: Vec<W::Op>, class: &str) -> Minimised<W::Op> {
         while i < cur.len() && cur.len() > 1 && budget > 0 {
             let mut cand = cur.clone();
             cand.remove(i);
-            if still_fails(&cand, &mut budget) {
+            if probe(&cand, &mut budget).is_some() {
                 cur = cand;
                 changed = true;
             } else {
